@@ -11,7 +11,7 @@ cd $wt
 /venv/bin/python $src/${x}_demo.py $wt >/tmp/conf_${id}_${x}.orig.log 2>&1; rc_orig=$?
 if ! git apply $src/$x.patch 2>/dev/null; then patch -p1 --fuzz=3 -s < $src/$x.patch || { echo "PATCH-FAILED"; cd /; git -C /repo worktree remove --force $wt; exit 3; }; fi
 /venv/bin/python $src/${x}_demo.py $wt >/tmp/conf_${id}_${x}.mut.log 2>&1; rc_mut=$?
-tests=$(/venv/bin/python -m pytest -q -p no:cacheprovider --timeout=900 -n 4 2>&1 | tail -1)
+tests=$(/venv/bin/python -m pytest -q -p no:cacheprovider --timeout=900 2>&1 | tail -1)
 git diff > /tmp/conf_${id}_${x}.diff
 cd /
 git -C /repo worktree remove --force $wt
